@@ -446,6 +446,23 @@ pub fn gen_fake64(rng: &mut Rng, near: Option<u64>, classes: &mut Vec<String>) -
     }
 }
 
+/// A fake that lives in the same image as the targets (what an ordinary test has): in the third
+/// text page, which holds no function entry except possibly the very last slot; a third of them
+/// start exactly on the page boundary.
+pub fn fake_in_image(rng: &mut Rng, l: &Layout, ps: u64, arch: Arch) -> u64 {
+    let page = l.text[0].addr + 2 * ps;
+    let mut a = if rng.chance(1, 3) { page } else { page + 16 * rng.below(64) };
+    // never a function of the scenario itself (a run of functions may reach into this page)
+    while l.targets.iter().chain(l.bystanders.iter()).any(|t| ((t & !1) as i64 - a as i64).abs() < 16) {
+        a += 16;
+    }
+    if arch == Arch::Arm && rng.chance(1, 2) {
+        a | 1
+    } else {
+        a
+    }
+}
+
 pub fn gen_fake32(rng: &mut Rng, classes: &mut Vec<String>) -> u64 {
     let c = rng.below(6);
     let v = match c {
@@ -595,7 +612,14 @@ pub fn generate(profile: &str, variant: &str, seed: u64, index: u64) -> SimScena
             let mut ops = Vec::new();
             for _ in 0..n_ops {
                 let kind = if profile == "C10" { "boolean" } else { *rng.pick(kinds_for(arch)) };
-                let fake = if arch == Arch::Arm { gen_fake32(&mut rng, &mut classes) } else { gen_fake64(&mut rng, near, &mut classes) };
+                let fake = if rng.chance(1, 6) {
+                    classes.push("fake-in-image".into());
+                    fake_in_image(&mut rng, &l, ps, arch)
+                } else if arch == Arch::Arm {
+                    gen_fake32(&mut rng, &mut classes)
+                } else {
+                    gen_fake64(&mut rng, near, &mut classes)
+                };
                 classes.push(format!("kind-{kind}"));
                 ops.push(Install { target: rng.below(l.targets.len() as u64) as usize, kind: kind.into(), fake, value: rng.chance(1, 2) });
             }
@@ -617,7 +641,14 @@ pub fn generate(profile: &str, variant: &str, seed: u64, index: u64) -> SimScena
                 let mut counts = vec![0u32; l.targets.len()];
                 for _ in 0..n_ops {
                     let kind = *rng.pick(kinds_for(arch));
-                    let fake = if arch == Arch::Arm { gen_fake32(&mut rng, &mut Vec::new()) } else { gen_fake64(&mut rng, None, &mut Vec::new()) };
+                    let fake = if rng.chance(1, 4) {
+                        classes.push("fake-in-image".into());
+                        fake_in_image(&mut rng, &l, ps, arch)
+                    } else if arch == Arch::Arm {
+                        gen_fake32(&mut rng, &mut Vec::new())
+                    } else {
+                        gen_fake64(&mut rng, None, &mut Vec::new())
+                    };
                     // repetition bias: half of the time re-use an already faked target
                     let t = if rng.chance(1, 2) && counts.iter().any(|c| *c > 0) {
                         let idx: Vec<usize> = counts.iter().enumerate().filter(|(_, c)| **c > 0).map(|(i, _)| i).collect();
